@@ -121,6 +121,9 @@ class IsoTpStateMachine:
                 self.on_sequence_error(telegram_idx, expected_segment_idx, rx_segment_idx)
             elif len(telegram_data) == n:
                 self.on_telegram_complete(telegram_idx, telegram_data)
+                # the transfer is finished: further consecutive frames
+                # do not belong to this telegram anymore
+                self._telegram_data[telegram_idx] = None
                 yield (rx_id, telegram_data)
 
         elif frame_type == IsoTp.FRAME_TYPE_FLOW_CONTROL:
